@@ -8,7 +8,7 @@
    check establishes on every run that the code agrees with them (in particular does not
    panic); the theorems below say what those forms are. *)
 From Coq Require Import ZArith List Bool.
-From FV Require Import Generated.Consts Lib.Wrap Lib.LE Lib.Varint Lib.Dec C07.Model C07.Proofs.
+From FV Require Import Generated.Consts Lib.Wrap Lib.LE Lib.Varint Lib.Dec Lib.Float C07.Model C07.Proofs.
 Import ListNotations.
 Open Scope Z_scope.
 
@@ -31,6 +31,32 @@ Proof.
   split; [exact (readback_bytes o)|exact (readback_nil o)].
 Qed.
 Print Assumptions c07_readback.
+
+(* the hardware conversions behind "reads back as the same value", exactly, on bit patterns:
+   a float32 body is stored as widen32 of its pattern, which is injective on non-signalling
+   patterns and narrows back to the pattern set (a signalling NaN comes back quiet, payload
+   kept); an integer body read as a float is exact below 2^53 and converts back to itself.
+   Only strconv's float text, protojson and int64(float64) outside the int64 range stay oracles. *)
+Theorem c07_conversions : forall oor ff pf fp,
+  let o := go_oracles oor ff pf fp in
+  (forall b, 0 <= b < 2 ^ 32 ->
+     body_to_float o (set_body o (GF32 b)) = Some (widen32 b) /\ 0 <= widen32 b < 2 ^ 64 /\
+     narrow64 (widen32 b) = (if is_snan32 b then b + 2 ^ 22 else b)) /\
+  (forall a b, 0 <= a < 2 ^ 32 -> 0 <= b < 2 ^ 32 -> is_snan32 a = false -> is_snan32 b = false ->
+     widen32 a = widen32 b -> a = b) /\
+  (forall v, v <> 0 -> Z.abs v < 2 ^ 53 ->
+     body_to_float o (BInt v) = Some (Float.i2f v) /\
+     2 ^ 52 + f64_man (Float.i2f v) = Z.abs v * 2 ^ (1075 - f64_exp (Float.i2f v)) /\
+     f64_sign (Float.i2f v) = (if v <? 0 then 1 else 0)) /\
+  (forall v, Z.abs v < 2 ^ 53 -> body_to_int o (BFloat (Float.i2f v)) = Some v).
+Proof.
+  intros oor ff pf fp o. split; [|split; [|split]].
+  - intros b Hb. split; [reflexivity|]. split; [exact (widen32_range b Hb)|exact (narrow_widen b Hb)].
+  - exact widen32_injective.
+  - intros v Hv Ha. destruct (i2f_exact v Hv Ha) as (_ & Hs & _ & Hm). split; [reflexivity|]. split; assumption.
+  - intros v Ha. cbn [body_to_int o go_oracles Model.f2i]. rewrite (f2i_i2f v Ha). reflexivity.
+Qed.
+Print Assumptions c07_conversions.
 
 (* "has a defined text form for every supported kind including integers": integers print in
    decimal and parse back (every int64, hence every integer kind and bool after SetBody); text
